@@ -12,7 +12,7 @@ Definition show_fres (r : fres) : string :=
   end.
 Definition check (rs : list rune) : string := digest (show_fres (format_res rs)).
 Definition full (rs : list rune) : string := show_fres (format_res rs).
-Eval vm_compute in ("<<<M1900>>>" ++ check (runes_of_ascii "
+Eval vm_compute in ("<<<M1842>>>" ++ check (runes_of_ascii "
 options{
     // c1
 	LittleEndian  // c2a
@@ -298,444 +298,616 @@ Logon,// c165
 
 }// c174a
   	// c174b")).
-Eval vm_compute in ("<<<M1477>>>" ++ check (runes_of_ascii "//	t
-packet MetaDataX {
-    @leftPad( )
-    repeat float64 asx,
-}
-
-MetaData Foo {
-    // a // b
-    char[65535] Pad,
-}
-
-packet body {
-    match asx as charz {
-        // `tick` ""quote"" 'q'
-        10 : u8x,
-        ""it's"" : leftPad,
-        3 : metadata,
-        ""it's"" : x,
-        [65535, """ ++ [233]%N ++ runes_of_ascii "t" ++ [233]%N ++ runes_of_ascii """] : u128,
-        10 : len,
-    },
-    repeat f32 rootA ``,// 50% %s
-    @leftPad(
-        //
-        ' ' )
-    repeat i64 BodyLength,
-    repeatCount {
-        i16 crc @lengthOf(u128),
-    },
-    u16 u @lengthOf(f32a) `// not a comment`,// trailing space 
-    len {
-        match Logon as Foo {
-            """ ++ [233]%N ++ runes_of_ascii "t" ++ [233]%N ++ runes_of_ascii """ : stringy,
-            10 : msg_type,
-            //	t
-            [
-                ""\n"", ""`tick`"", ""abc"", """", 007,
-                1, ""a\""b""
-            ] : i64_,
-            255 : T,
-            ""{,}"" : f32a,
-        },
-        string tag @lengthOf(Z9_),
-        // a // b
-        u32 charz `crlf
-        line`,
-        u8x @lengthOf(rootA),
-    },
-    float,
-    int8 repeatCount @lengthOf(f32a) `crlf
-    line`,
-    zchar[7] BodyLength @lengthOf(string_),
-}
-
-packet u128 {
-    x `// not a comment`,
-}//
-
-packet x {
-    A `doc`,
-    Packet @calculatedFrom(""\" ++ [233]%N ++ runes_of_ascii """) `say ""hi""`,
-    repeat string asx,
-    @lengthOf(MetaDataX)
-    repeat char[4294967296] string_ `u8 x,`,
-    @lengthOf(charz)
-    char[0123456789] f32a `say ""hi""`,
-}")).
-Eval vm_compute in ("<<<M1748>>>" ++ check (runes_of_ascii "
-options{
-	}
-root 
-packet
-    tag	{
-	@calculatedFrom(
-
+Eval vm_compute in ("<<<M1650>>>" ++ check (runes_of_ascii "MetaData Logon {
+    zchar[7] BodyLength,
+    char Header,
     // @lengthOf(
-    ""packet"") u128 @lengthOf(
-zchar 
-)
-
-    , }  packet
-    _x
-	{ 
-@calculatedFrom(
-    ""a\\"")	//
-	@rightPad(
-
-    ' ' )
-	As
-, zchar // c
-	@calculatedFrom(
-
-    """ ++ [233]%N ++ runes_of_ascii "t" ++ [233]%N ++ runes_of_ascii """ )
-`tab	here` // trailing space 
-	, 
-@tag( 007
-	)
-
-    @lengthOf(  //	t
-    zchar  )	// packet A { u8 x, }
-    string
-crc 
-,
-
-string u128
-	// c
-    @calculatedFrom(
-
-    ""packet""
-//
-// `tick` ""quote"" 'q'
-  ) // c
-
-,
-	repeat
-uint64
-asx,	@lengthOf( 
-zchar
-) lengthOf
-	{
-string 
-trueish `// not a comment`
-    ,}
-, 
-
-// trailing space 
-		// `tick` ""quote"" 'q'
-  @tag(
-0)
-u128 
-{
-repeat
-f64  /// triple
-    crc
-
-`` ,  char[ 3
-
-    ]  Foo`crlf
-line` 
-,
-repeat
-
-//x
-
-// @lengthOf(
-float	uint8x  ,char[  10
-]	msg_type
-    `u8 x,`
-    , } // packet A { u8 x, }
-	,
-
-    uint64
-
-string_ ,
-
-packetx 
-matchKey ,// 50% %s
-  @leftPad	(  ' '
-
-) repeat
-zchar[ 	 // @lengthOf(
-
-255] Z9_ , 
+    int8 x_y_z `u8 x,`,
+    i32 falsey,//
+    int16 lengthOf `two words`,
 }
-    MetaData
-    crc
 
-    {  calculatedFrom
-body
-`// not a comment` ,  i64_ i8i8,
-	o
-
-options1	`u8 x,` 
-,
-
-char[
-    10
-	] pack
-,
-	}
-    // a // b
-")).
-Eval vm_compute in ("<<<M145>>>" ++ check (runes_of_ascii "options
-{ }
-root packet tag{ @calculatedFrom(
-    // @lengthOf(
-    ""packet"" ) u128 @lengthOf(zchar
-) ,
-    } packet _x { @calculatedFrom( ""a\\"" )//
-@rightPad (	' ' ) As , zchar// c
-@calculatedFrom( """ ++ [233]%N ++ runes_of_ascii "t" ++ [233]%N ++ runes_of_ascii """ ) `tab	here` // trailing space 
-, @tag(007 ) @lengthOf( //	t
-zchar ) // packet A { u8 x, }
-string crc
-,string u128
-    // c
-    @calculatedFrom(
-    ""packet""
-//
-// `tick` ""quote"" 'q'
-)// c
-,
-    repeat uint64 asx, @lengthOf( zchar) lengthOf
-{
-string
-trueish `// not a comment`
-    , }	,
-// trailing space 
-// `tick` ""quote"" 'q'
-@tag(0) u128 { repeat f64 /// triple
-crc
-``
-, char[
-3 ] Foo`crlf
-line` , repeat
-//x
-// @lengthOf(
-float uint8x
-,
-char[
-10 ] msg_type
-`u8 x,`, }// packet A { u8 x, }
-,
-uint64	string_,
-packetx matchKey
-, // 50% %s
-@leftPad
-    (' ' ) repeat zchar[ // @lengthOf(
-255  ]
-    Z9_,} MetaData crc {calculatedFrom
-body `// not a comment`
-    ,i64_
-i8i8 , o options1  `u8 x,` , char[
-10 ] pack , }
-// a // b
-")).
-Eval vm_compute in ("<<<M1729>>>" ++ check (runes_of_ascii "packet i8i8 {
-    // trailing space 
-    // " ++ [27880; 37322]%N ++ runes_of_ascii "
-    MetaDataX @lengthOf(chars) `" ++ [233]%N ++ runes_of_ascii "`,// 50% %s
-    char[] u128 @lengthOf(u8x),
-    @lengthOf(T)
-    float64 repeatCount,
+root packet options1 {
+    repeat A BodyLength,
+    metadata {
+        u64 calculatedFrom ``,
+    },
+    body {
+        i16 matchKey,
+        uint16 packetx `// not a comment`,
+        a1 ``,
+        repeat packetx,
+    },
+    body u8x `a\`,
+    @tag(10)
     @tag(00)
-    MetaDataX,
+    // c
+    @rightPad('\x00')
+    repeat tag {
+        i16 u `" ++ [233]%N ++ runes_of_ascii "`,
+    },
     // a // b
-    // trailing space 
-    uint64 chars `tab	here`,
-    string_ @lengthOf(As) ``,
-    zchar[00] asx @lengthOf(metadata) `line1
-    line2`,
-    @lengthOf(charz)
-    charz f32a `" ++ [28040; 24687; 31867; 22411]%N ++ runes_of_ascii "`,
-    @rightPad(	'\x00'
-    )
-    repeat BodyLength tag,
+    // c
+    @lengthOf(u)
+    @calculatedFrom(""" ++ [128512]%N ++ runes_of_ascii """)
+    i16 falsey,
+    f32a @lengthOf(uint8x) `it's`,
+    asx @lengthOf(Header) `two words`,
+    // `tick` ""quote"" 'q'
+    @lengthOf(A)
+    @lengthOf(int)
+    @calculatedFrom(""1"")
+    char[] uint8x,
+    x_y_z @lengthOf(Foo) `crlf
+    line`,
 }
 
-packet repeatCount {
-    crc stringy,
-}
-
-options {
-    zchar = char[];
-    options1 = false
-    repeatCount = ""a	b""
-    body = ""`tick`""
-}
-
-// a // b
-//x
-MetaData MetaDataX {
-    Pad repeatCount `u8 x,`,
-    char[42] f32a ``,
-    _x Z9_,
-}
-
-packet Logon {
-    @tag(007)
-    o {
-        char Packet @lengthOf(repeatCount),
+packet stringy {
+    repeat string len,
+    @calculatedFrom(""{,}"")
+    repeat o {
+        u64 float,
     },
-}// a // b")).
-Eval vm_compute in ("<<<M132>>>" ++ check (runes_of_ascii "// @lengthOf(
-packet x_y_z { float32 T
-    @lengthOf( int)// c
-, @tag( //	t
-255 ) @calculatedFrom( ""\n"")
-    lengthOf { repeat Packet repeatCount
-    ,} , char[ 0]body
-`two words`  ,
-o// a // b
-`a\`
-    , @tag(1) repeat	Foo lengthOf//	t
-,
-repeat lengthOf {
-    string_ @lengthOf(
-// packet A { u8 x, }
-// trailing space 
-x_y_z
-    // " ++ [128512]%N ++ runes_of_ascii " emoji
-    )
-    , repeat asx {
-    int16 float
-    @calculatedFrom( ""CRC32"" ) ,
-} ,//
-i8 leftPad@calculatedFrom(""\n""
-)
-`// not a comment`	,} , char[
-    00 ]u ,	match a1 as roots
-// `tick` ""quote"" 'q'
-// `tick` ""quote"" 'q'
-{//
-[ """ ++ [28040; 24687]%N ++ runes_of_ascii """ ,""// no comment""	, /// triple
-""1"",	0 ] // a // b
-: calculatedFrom
-,  } , } options  { metadata =char[] }
-")).
-Eval vm_compute in ("<<<M274>>>" ++ check (runes_of_ascii "packet x_y_z {
-    @tag(1 ) string	u
-@calculatedFrom(
-""`tick`"" ) ,
-} packet	chars { char[ 00 ]
-    crc `two words`
-, @lengthOf( calculatedFrom ) uint64 _x`
-`
-    // " ++ [27880; 37322]%N ++ runes_of_ascii "
-    , match Logon
-as falsey
-{[	""`tick`"" , ""\n"" ,
-007 //	t
-, 007
-, 1, 3
-    , ""it's""]
-: options1  , [42 , """ ++ [28040; 24687]%N ++ runes_of_ascii """ ] : msg_type
-, 007
-    : string_ , } ,// 50% %s
-repeatCount lengthOf, @tag( 007
-    )
-    Pad , } packet
-A	{	@calculatedFrom( ""CRC32"" ) @lengthOf( zchar ) repeatCount {
-zchar[
-0 ] stringy `two words` ,	} //
-, i16 falsey
-,match A // @lengthOf(
-as tag
-{ 3 :i64_ , [0123456789  ]
-    : chars
-, 7 :  options1 ,} , }")).
-Eval vm_compute in ("<<<M1603>>>" ++ check (runes_of_ascii "packet metadata {
-    Header u128,
-}
-
-packet zchar {
-    /// triple
-    @tag(4294967296)
-    @lengthOf(a1)
-    i8 _x `crlf
-        line`,
-    @lengthOf(_x)
-    match x_y_z as Packet {
-        0 : leftPad,
-        65535 : tag,
-        00 : leftPad,
-        ""a\\"" : Packet,
-        10 : o,
-        [""CRC32""] : float,
-    },
-    match stringy as calculatedFrom {
-        ""`tick`"" : rootA,
-        ""`tick`"" : asx,
-        3 : u128,
+    match i64_ as Pad {
+        [1] : roots,
+        ""it's"" : uint8x,
+        1 : MetaDataX,
+        [
+            255, ""a\""b"", """ ++ [233]%N ++ runes_of_ascii "t" ++ [233]%N ++ runes_of_ascii """, 65535, 4294967296,
+            7, 0123456789
+        ] : len,
+        255 : metadata,
+        ""it's"" : calculatedFrom,
+        // `tick` ""quote"" 'q'
     },
     @lengthOf(msg_type)
-    @tag(10)
-    // 50% %s
-    repeatCount @lengthOf(string_) `a\`,
-}")).
-Eval vm_compute in ("<<<M245>>>" ++ check (runes_of_ascii "root packet x { } options
-    {	msg_type
-=	false //	t
-; Z9_ =	0 ;
-    // c
-    }
-MetaData metadata{
-} packet	_x{ @tag(65535) match BodyLength
-as metadata
+    falsey @calculatedFrom(""" ++ [28040; 24687]%N ++ runes_of_ascii """),
+    repeat char[] trueish,
+    zchar[1] A,// `tick` ""quote"" 'q'
+    repeat metadata {
+        zchar[7] Pad,
+    },
+    @tag(3)
+    i32 body `u8 x,`,
+}// trailing space ")).
+Eval vm_compute in ("<<<M1491>>>" ++ check (runes_of_ascii "
+// top
+	  packet	// c0a
+  // c0b
+  A
+    {// c2a
+	// c2b
+	u8 	 // c3
+a  // c4a
+      // c4b
+	, // c5
+    }  // c6a
+    // c6b
+	packet 	 // c7
+
+B
+// c8
     {
-10
-:trueish , [// `tick` ""quote"" 'q'
-""{,}"" ] : u// @lengthOf(
-,
+	    // c9
+	  u16
+
+    b // c11
+    ,} 	 // c13a
+  // c13b
+      packet	// c14a
+
+	// c14b
+  C// c15
+    	{  // c16a
+	// c16b
+  u32 c	// c18
+
+  ,
+
     }
-    , @calculatedFrom(""CRC32""
-)@rightPad( '0' ) lengthOf string_
-    ,// 50% %s
-@lengthOf( matchKey
-) Packet
-    { lengthOf@lengthOf( uint8x
-    ) `` ,
-i8i8 { repeat msg_type lengthOf,
-    // c
-    matchKey	,},
-    o @lengthOf( lengthOf ) , }, }
-//	t
+    // c20
+	root  // c21a
+
+  // c21b
+  packet	M 
+    // c23
+	{// c24
+  u16 // c25
+Kc,// c27a
+  // c27b
+u16  // c28
+	Kb	// c29
+,  // c30a
+
+// c30b
+  	u16 Ka  // c32a
+	// c32b
+	, 
+    // c33
+	match
+	Kc 
+    // c35
+		as
+// c36
+	X 	 // c37
+
+	{
+9 
+	// c39
+
+: A  // c41
+,
+
+    10 // c43
+:  // c44
+		B // c45
+  , 
+    // c46
+  }
+    , 	 // c48a
+  // c48b
+	match	// c49
+  Kb  // c50a
+  // c50b
+as // c51
+Y	// c52a
+  // c52b
+
+  { 2// c54
+:
+
+C , // c57a
+	// c57b
+  	1  // c58a
+		// c58b
+
+	:	// c59a
+  	// c59b
+  A
+,
+// c61
+      } 
+	    // c62
+
+  ,	// c63a
+// c63b
+	match
+    // c64
+Ka // c65
+	as
+    Z 	 // c67a
+    // c67b
+
+{
+    // c68
+  1  // c69
+: 	 // c70
+  B 	 // c71a
+
+// c71b
+  ,	// c72a
+		// c72b
+  }// c73
+, // c74a
+      // c74b
+A  // c75a
+
+// c75b
+,	// c76
+	  B// c77
+
+	, // c78a
+  	// c78b
+    C ,  // c80a
+// c80b
+  	} // c81
 ")).
-Eval vm_compute in ("<<<M1841>>>" ++ check (runes_of_ascii "// top
-options {
-    // c1a
-    // c1b
-    FixedStringPadChar = '0';// c5a
-    // c5b
+Eval vm_compute in ("<<<M76>>>" ++ check (runes_of_ascii "packet rootA{
+@lengthOf( a1 ) f32a
+@lengthOf( Header )
+    `// not a comment` ,match  T as
+    i64_
+{42: // packet A { u8 x, }
+string_,	}, match// trailing space 
+stringy
+as Header {[	65535]: msg_type , ""it's""	:u
+// " ++ [128512]%N ++ runes_of_ascii " emoji
+// " ++ [27880; 37322]%N ++ runes_of_ascii "
+,
+    ""\n""
+: lengthOf // `tick` ""quote"" 'q'
+} , @tag(
+    42 )
+    repeat
+zchar f32a `u8 x,` ,@tag( 255
+) //
+repeat //	t
+Pad {  x T
+,
+}
+    , @calculatedFrom(  ""{,}""
+    /// triple
+    )
+repeat leftPad
+    {
+    //	t
+    u64 u8x `" ++ [28040; 24687; 31867; 22411]%N ++ runes_of_ascii "`
+,len @calculatedFrom(""\" ++ [233]%N ++ runes_of_ascii """ )
+    , zchar[	4294967296 ] // " ++ [27880; 37322]%N ++ runes_of_ascii "
+falsey,}
+    , @tag(
+    7
+)match i8i8 as
+    pack{ 3	: string_ 0123456789
+:packetx
+,[42 ] : tag ,""\n"" : a1 , [ 0123456789	,
+    1 ]	:
+    x_y_z 0:
+float }
+    ,  repeat
+u128 As , }	options { packetx=
+    """ ++ [128512]%N ++ runes_of_ascii """; msg_type = ' '
+; Packet// 50% %s
+=10;
+    }
+    // a // b
+    packet Pad//
+{
+    // " ++ [27880; 37322]%N ++ runes_of_ascii "
+    char[] pack ,	repeat float32
+falsey  ,char[42
+]	Z9_ , Logon  @lengthOf( i8i8
+)
+    `
+`	,
+tag{	x , i32 float @lengthOf( crc
+    ) , } , }
+")).
+Eval vm_compute in ("<<<M1421>>>" ++ check (runes_of_ascii "
+MetaData 
+len 
+{ float 
+roots`u8 x,`, u32
+int  `" ++ [233]%N ++ runes_of_ascii "` ,
+    }root
+
+    packet 
+x {@tag(
+
+1 
+)repeat
+charz
+,
+Pad
+@calculatedFrom( """ ++ [233]%N ++ runes_of_ascii "t" ++ [233]%N ++ runes_of_ascii """
+
+)
+
+    ,match	int
+	as	u8x{//x
+  0:leftPad
+
+    ,
+
+    [ 1
+,
+	0123456789
+,
+
+10
+	]
+
+    :
+    uint8x
+	}  ,
+@leftPad (
+	)	/// triple
+repeat
+
+u128
+	{ f64
+_x	`two words`, 
+T 
+@calculatedFrom(
+
+""\n"" )`u8 x,` 
+	/// triple
+    ,
+match
+	A as
+crc 
+{ 3
+
+:
+
+    // a // b
+leftPad
+,
+	""" ++ [128512]%N ++ runes_of_ascii """:falsey ,	[
+""" ++ [233]%N ++ runes_of_ascii "t" ++ [233]%N ++ runes_of_ascii """
+    ,4294967296 ,
+
+    """ ++ [28040; 24687]%N ++ runes_of_ascii """	, ""a	b"" ,
+00	// a // b
+
+, 
+""" ++ [233]%N ++ runes_of_ascii "t" ++ [233]%N ++ runes_of_ascii """ ] 
+:
+    rootA
+,
+	""1""
+:MetaDataX,
+	} ,  f32	o 
+@calculatedFrom(  ""// no comment""
+) `// not a comment`
+, // a // b
+	  }  , chars	@calculatedFrom(
+""{,}""
+	) , 
+@rightPad  (' ' )
+
+@tag( 0 )
+
+    repeat BodyLength
+`` ,
+
+body 
+, }MetaData
+	T	{
+
+    len i8i8  ,
+    }	options	{
+f32a
+
+    =true
+    }
+    packet
+    falsey{
+
+}
+")).
+Eval vm_compute in ("<<<M1332>>>" ++ check (runes_of_ascii "packet P1 // c1a
+  // c1b
+{ // c2
+u8 // c3a
+  // c3b
+a
+    // c4
+, }
+    // c6
+packet
+    // c7
+P2
+    // c8
+{ P1 // c10
+, // c11a
+  // c11b
+}
+    // c12
+packet
+    // c13
+P3 { // c15
+P2 , // c17a
+  // c17b
+P1
+    // c18
+, // c19a
+  // c19b
+}
+    // c20
+packet P4 { // c23a
+  // c23b
+repeat P3 , // c26
+P2 // c27a
+  // c27b
+, // c28
+} root // c30a
+  // c30b
+packet // c31
+P5 { P4
+    // c34
+,
+    // c35
+P3
+    // c36
+, // c37a
+  // c37b
+P1 // c38a
+  // c38b
+, u8 K // c41a
+  // c41b
+,
+    // c42
+match
+    // c43
+K // c44
+as Body {
+    // c47
+4 // c48
+: // c49
+P4 , // c51
+3 :
+    // c53
+P3 ,
+    // c55
+2 // c56a
+  // c56b
+:
+    // c57
+P2
+    // c58
+,
+    // c59
+1 // c60
+: // c61
+P1 // c62
+, } , } ")).
+Eval vm_compute in ("<<<M70>>>" ++ check (runes_of_ascii "packet  u128
+{
+    string a1 ,x ,
+    @calculatedFrom( ""\n""
+)
+    @tag( 0 ) @tag(42 ) i8 Packet @calculatedFrom( ""a	b"" // @lengthOf(
+) `a\`	, @calculatedFrom(
+    ""\n""// @lengthOf(
+)
+repeat string uint8x `{ , }` , char[] string_ , } packet repeatCount {  @leftPad ( '\x00'
+) o @calculatedFrom(""abc"" ) `u8 x,` ,  char[ 1]
+    repeatCount	,
+    char[] x , @tag( 007
+)
+    repeat i16
+u8x `a\`, @lengthOf( u ) repeat uint16 u128 , repeat uint8 repeatCount ,repeat stringy {char[ 10 ] options1,int `doc`
+,}
+, } MetaData BodyLength {i64 // " ++ [27880; 37322]%N ++ runes_of_ascii "
+x_y_z
+    `" ++ [233]%N ++ runes_of_ascii "`,u64 x `
+`
+, asx asx,char[ 3
+    ]
+leftPad , }
+MetaData zchar //	t
+{}
+")).
+Eval vm_compute in ("<<<M1937>>>" ++ check (runes_of_ascii "options {
+    i64_ = ' ';
+    As = ""x y""
+    _x = f64
 }
 
-packet Q {
-    // c9a
-    // c9b
-    zchar[4] z,// c14
-    @rightPad( // c16a
-          // c16b
-        '\x00' // c17
-        )
-    char[3] n,// c23a
-    // c23b
-    char[5] d,// c28a
-    // c28b
-}// c29a
+packet asx {
+    string i8i8,
+}// 50% %s
 
-// c29b
-root packet R {
-    // c33a
-    // c33b
-    Q,
-    // c35
-    zchar[8] top,// c40a
-    // c40b
-    repeat zchar[2] zs,// c46
-}// c47")).
+packet float {
+    // 50% %s
+    repeat char[1] trueish,
+    body @lengthOf(string_) `two words`,
+    @calculatedFrom(""CRC32"")
+    i8 u @lengthOf(uint8x),
+    // trailing space 
+    @leftPad()
+    repeat uint8x ``,
+    body tag `tab	here`,
+    string chars `tab	here`,
+    @tag(0)
+    asx,
+}// `tick` ""quote"" 'q'
+
+root packet u128 {
+}
+
+MetaData x_y_z {
+    int32 u128,
+    len calculatedFrom,
+    char[0] _x `a\`,
+    zchar[1] x,
+    string MetaDataX `{ , }`,
+}")).
+Eval vm_compute in ("<<<M156>>>" ++ check (runes_of_ascii "  MetaData
+T { char[ 0123456789 ] rootA
+`line1
+line2` , i32	Logon
+,rootA
+asx ,} root/// triple
+packet
+    Header { uint32
+len
+    @lengthOf( u ) `
+` , repeat
+    char MetaDataX/// triple
+`" ++ [28040; 24687; 31867; 22411]%N ++ runes_of_ascii "` ,
+    uint8x @lengthOf( zchar) // @lengthOf(
+`u8 x,`
+// " ++ [27880; 37322]%N ++ runes_of_ascii "
+// packet A { u8 x, }
+, uint8
+Z9_,
+    @lengthOf( u128 ) @lengthOf(
+MetaDataX )
+@tag( 0123456789
+) Logon @lengthOf(
+    /// triple
+    body ),	}  options { Z9_
+= uint32; options1 = '\x00' } options {Foo  = ""// no comment"" ; }
+packet
+    float
+{
+}")).
+Eval vm_compute in ("<<<M1378>>>" ++ check (runes_of_ascii "options{ArrayPrefixLenType= 
+u64  ;  FixedStringPadFromLeft
+    = 
+true
+
+;
+
+FixedStringPadChar
+=
+'0'
+
+    ;}
+
+    packet 
+Order {	}root
+    packet Leg  {
+
+char[]
+Ref ,repeat  Order  ,
+f32 Acct  ,
+@leftPad (  '0'
+    )
+    char[ 10
+
+]  venue
+    ,	@rightPad (
+	'0' )	char[3
+    ]
+
+seqNo
+, repeat
+u64 Px ,u8
+
+Flags
+    ,	u32
+
+    lastPx	@lengthOf(Body
+	) 
+,
+	match 
+Flags  as
+    Body	{ 185
+    :
+    Order
+
+, }
+
+,
+u16
+	sym
+
+@calculatedFrom(  ""CRC32""	)  ,
+} ")).
+Eval vm_compute in ("<<<M1517>>>" ++ check (runes_of_ascii "packet repeatCount {
+    @tag(7)
+    match T as i64_ {
+        """ ++ [233]%N ++ runes_of_ascii "t" ++ [233]%N ++ runes_of_ascii """ : body,
+    },
+    @lengthOf(crc)
+    float64 body `u8 x,`,
+    repeat rootA {
+        int16 x_y_z `two words`,
+        zchar[4294967296] trueish `two words`,
+        Pad @lengthOf(Pad) `// not a comment`,
+    },
+    tag string_,
+    @lengthOf(len)
+    // packet A { u8 x, }
+    @tag(255)
+    @lengthOf(Logon)
+    int,
+    Foo @lengthOf(leftPad) `
+        `,
+}")).
 Eval vm_compute in ("<<<M368>>>" ++ check (runes_of_ascii "root packet a1 {i8 A @calculatedFrom( //
 ""\" ++ [233]%N ++ runes_of_ascii """ )
 , @lengthOf( int ) @lengthOf(  len) @lengthOf( f32a )
@@ -756,483 +928,437 @@ u8x `say ""hi""`
     } ,
 }
 ")).
-Eval vm_compute in ("<<<M1554>>>" ++ check (runes_of_ascii "
-MetaData
-    Header 	 /// triple
-  {As options1 `two words`
-	,
-u64
-matchKey  `100% of %d`
-,	}
-
-    root  packet _x
-
-{ @lengthOf(
-	i64_
-    )
-A@calculatedFrom( 
-// trailing space 
-		""{,}""	)
-    ,
-
-x
-matchKey
-
-,
-	o @calculatedFrom( //	t
-	""{,}""	)
-,@rightPad	(  '0' )@lengthOf(Z9_ )
-	@calculatedFrom( ""a\\"") 
-zchar[ 65535  ]  Packet
-    @lengthOf(	Packet) ,
-	}
-")).
-Eval vm_compute in ("<<<M1690>>>" ++ check (runes_of_ascii "options {
-}
-
-root packet chars {
-    @rightPad('0'	)
-    chars f32a `say ""hi""`,
-    int16 u8x,
-    @tag(4294967296)
-    @rightPad()
-    u64 packetx @calculatedFrom(""it's""),
-    @calculatedFrom(""\n"")
-    o @calculatedFrom(""a\""b""),
-    Logon @lengthOf(BodyLength),
-}
-
-options {
-}
-
-MetaData zchar {
-    u64 MetaDataX `// not a comment`,
-}")).
-Eval vm_compute in ("<<<M1497>>>" ++ check (runes_of_ascii "options {
-    len = 00;
-    //	t
-    // packet A { u8 x, }
-    charz = zchar[3];
-    Pad = 255;
-    falsey = """ ++ [28040; 24687]%N ++ runes_of_ascii """
-}
-
-root packet repeatCount {
-    char[4294967296] x_y_z @lengthOf(string_),
-    @calculatedFrom(""packet"")
-    @tag(4294967296)
-    float32 asx @lengthOf(x_y_z),
-    u64 zchar,
-}")).
-Eval vm_compute in ("<<<M1644>>>" ++ check (runes_of_ascii "packet MDSnapshotZZ {
-    u8 a,
-}
-
-packet OrderACK {
-    u16 b,
-}
-
-packet HTTPServerInfo {
-    string s,
-}
-
-root packet FIXMsg {
-    u8 KType,
-    MDSnapshotZZ,
-    repeat OrderACK,
-    match KType as Body {
-        1 : HTTPServerInfo,
-        2 : OrderACK,
+Eval vm_compute in ("<<<M195>>>" ++ check (runes_of_ascii "root // 50% %s
+packet u128 {
+    a1
+    @calculatedFrom(""a\""b"" ) , }
+root packet pack { BodyLength @calculatedFrom(
+    ""{,}""
+)
+    `// not a comment` ,//x
+uint8x , i64 rootA, @lengthOf( BodyLength )	string
+zchar
+    , // " ++ [128512]%N ++ runes_of_ascii " emoji
+} packet _x	{ @tag( 7 ) match // @lengthOf(
+trueish
+    as packetx { 10
+: Header ,7 : trueish ""a\""b"" :
+// @lengthOf(
+// " ++ [27880; 37322]%N ++ runes_of_ascii "
+pack ,}, }")).
+Eval vm_compute in ("<<<M1828>>>" ++ check (runes_of_ascii "root packet i8i8 {
+    msg_type @lengthOf(asx),
+    Logon {
+        msg_type {
+            repeat x_y_z `say ""hi""`,
+        },
     },
-}")).
-Eval vm_compute in ("<<<M536>>>" ++ check (runes_of_ascii "packet
-    asx { @calculatedFrom(
-""""  ) @tag( 255 )repeat
-// packet A { u8 x, }
-// trailing space 
-int16 u8x
-,
-@tag(
-    //
-    007 )
-    @tag( @lengthOf0
-    /// triple
-    ) @tag( 1) u
-    @lengthOf( T ),
-// `tick` ""quote"" 'q'
-//x
-} // " ++ [128512]%N ++ runes_of_ascii " emoji")).
-Eval vm_compute in ("<<<M254>>>" ++ check (runes_of_ascii "options
+    Z9_,
+    repeatCount {
+        char[] asx,
+        // " ++ [128512]%N ++ runes_of_ascii " emoji
+        float32 options1,
+        repeat uint64 x `two words`,
+        chars ``,
+    },
     // 50% %s
-    { //
-u128=zchar[10	]	;	body = '0' Z9_ =float64 ; i8i8 = ""a\\""
-    ; } packet T  {
-char[ 42] asx
-    @calculatedFrom(/// triple
-""CRC32""
-),}
-// trailing space 
-// " ++ [128512]%N ++ runes_of_ascii " emoji
-root packet x { Pad u128 `100% of %d`
-, } 	 ")).
-Eval vm_compute in ("<<<M543>>>" ++ check (runes_of_ascii "packet
-    asx { @calculatedFrom(
-""""  ) @tag( 255 )repeat
-// packet A { u8 x, }
-// trailing space 
-int16 u8x
-,
-@tag(
-    //
-    007 )
-    @tag( 0
-    /// triple
-    " ++ [65279]%N ++ runes_of_ascii ") @tag( 1) u
-    @lengthOf( T ),
-// `tick` ""quote"" 'q'
-//x
-} // " ++ [128512]%N ++ runes_of_ascii " emoji")).
-Eval vm_compute in ("<<<M509>>>" ++ check (runes_of_ascii "packet
-    asx { @calculatedFrom(
-""""  ) @tag( 255 )repeat
-// packet A { u8 x, }
-// trailing space 
-int16 u8x
-,
-@tag(
-    //
-    007 )
-    @tag( 0
-    /// triple
-    ) @tag( 1) u
-    @lengthOf( , ),
-// `tick` ""quote"" 'q'
-//x
-} // " ++ [128512]%N ++ runes_of_ascii " emoji")).
-Eval vm_compute in ("<<<M436>>>" ++ check (runes_of_ascii "packet
-    asx { @calculatedFrom(
-""""  ) @tag( 255 )repeat
-// packet A { u8 x, }
-// trailing space 
- u8x
-,
-@tag(
-    //
-    007 )
-    @tag( 0
-    /// triple
-    ) @tag( 1) u
-    @lengthOf( T ),
-// `tick` ""quote"" 'q'
-//x
-} // " ++ [128512]%N ++ runes_of_ascii " emoji")).
-Eval vm_compute in ("<<<M1264>>>" ++ check (runes_of_ascii "packet Inner
-    // c1
-{ // c2a
-  // c2b
-u8 // c3
-a // c4
-,
-    // c5
-} // c6a
-  // c6b
-root // c7
-packet // c8
-P // c9
-{ repeat
-    // c11
-Inner items // c13a
-  // c13b
-, // c14a
-  // c14b
-u8 x
-    // c16
-, }
-    // c18
-")).
-Eval vm_compute in ("<<<M524>>>" ++ check (runes_of_ascii "packet
-    asx { @calculatedFrom(
-""""  ) @tag( 255 )repeat
-// packet A { u8 x, }
-// trailing space 
-int16 u8x
-,
-@tag(
-    //
-    007 )
-    @tag( 0
-    /// triple
-    ) @tag( 1) u
-    @lengthOf( T ),")).
-Eval vm_compute in ("<<<M351>>>" ++ check (runes_of_ascii "options { i8i8=00 matchKey = 4294967296 msg_type = ' ' metadata
-    = 4294967296}//
-packet u8x {@tag( 4294967296 )	@leftPad( /// triple
-'0'  )
-@tag( 1
-) asx A`// not a comment`,  }
-")).
-Eval vm_compute in ("<<<M587>>>" ++ check (runes_of_ascii "MetaData u
-    { } MetaData o
-{ float uint8x uint8x
-`100% of %d` ,repeatCount u8x, string_ leftPad
-, i32
-    Foo , int64 x `two words` , calculatedFrom
-stringy `a\` ,
-}
-")).
-Eval vm_compute in ("<<<M559>>>" ++ check (runes_of_ascii "MetaData u
-    i64 } MetaData o
-{ float uint8x
-`100% of %d` ,repeatCount u8x, string_ leftPad
-, i32
-    Foo , int64 x `two words` , calculatedFrom
-stringy `a\` ,
-}
-")).
-Eval vm_compute in ("<<<M1590>>>" ++ check (runes_of_ascii "packet A {
-    match k as n {
-        [
-            1, ""bb"", 007, ""d"", 5,
-            ""f"", 7, ""h"", 9, ""j"",
-            11, ""l""
-        ] : B,
-        2 : C,
-    },
+    // 50% %s
+    repeat A float,
 }")).
-Eval vm_compute in ("<<<M673>>>" ++ check (runes_of_ascii "MetaData u
+Eval vm_compute in ("<<<M40>>>" ++ check (runes_of_ascii "packet
+    len { // " ++ [27880; 37322]%N ++ runes_of_ascii "
+@leftPad( '0'
+    ) // trailing space 
+Logon @lengthOf( _x)
+`100% of %d`
+,char
+    rootA
+, @calculatedFrom( """ ++ [28040; 24687]%N ++ runes_of_ascii """ )
+@leftPad
+    (' ' ) // `tick` ""quote"" 'q'
+i8
+crc , msg_type
+@calculatedFrom( """"	)
+`
+`
+, // `tick` ""quote"" 'q'
+}	options//x
+{}
+options { u8x =true }
+")).
+Eval vm_compute in ("<<<M193>>>" ++ check (runes_of_ascii "// " ++ [27880; 37322]%N ++ runes_of_ascii "
+packet	Header {
+    @tag(
+    // @lengthOf(
+    00
+)
+    u32
+charz @lengthOf( f32a
+)`" ++ [233]%N ++ runes_of_ascii "`, int32 Pad`doc`,
+@leftPad
+    (  '\x00'
+    // " ++ [27880; 37322]%N ++ runes_of_ascii "
+    ) BodyLength T `" ++ [233]%N ++ runes_of_ascii "`
+, }
+packet
+    stringy
+{
+    /// triple
+    msg_type
+// " ++ [27880; 37322]%N ++ runes_of_ascii "
+// " ++ [27880; 37322]%N ++ runes_of_ascii "
+,}MetaData f32a
+{ } // " ++ [128512]%N ++ runes_of_ascii " emoji")).
+Eval vm_compute in ("<<<M388>>>" ++ check (runes_of_ascii "packet packet
+    asx { @calculatedFrom(
+""""  ) @tag( 255 )repeat
+// packet A { u8 x, }
+// trailing space 
+int16 u8x
+,
+@tag(
+    //
+    007 )
+    @tag( 0
+    /// triple
+    ) @tag( 1) u
+    @lengthOf( T ),
+// `tick` ""quote"" 'q'
+//x
+} // " ++ [128512]%N ++ runes_of_ascii " emoji")).
+Eval vm_compute in ("<<<M462>>>" ++ check (runes_of_ascii "packet
+    asx { @calculatedFrom(
+""""  ) @tag( 255 )repeat
+// packet A { u8 x, }
+// trailing space 
+int16 u8x
+,
+@tag(
+    //
+    007 ) )
+    @tag( 0
+    /// triple
+    ) @tag( 1) u
+    @lengthOf( T ),
+// `tick` ""quote"" 'q'
+//x
+} // " ++ [128512]%N ++ runes_of_ascii " emoji")).
+Eval vm_compute in ("<<<M413>>>" ++ check (runes_of_ascii "packet
+    asx { @calculatedFrom(
+""""  @tag( ) 255 )repeat
+// packet A { u8 x, }
+// trailing space 
+int16 u8x
+,
+@tag(
+    //
+    007 )
+    @tag( 0
+    /// triple
+    ) @tag( 1) u
+    @lengthOf( T ),
+// `tick` ""quote"" 'q'
+//x
+} // " ++ [128512]%N ++ runes_of_ascii " emoji")).
+Eval vm_compute in ("<<<M112>>>" ++ check (runes_of_ascii "packet
+    options1 { @calculatedFrom( """" )@rightPad
+    ( '\x00'	) char[007] msg_type ,	i64 Header
+`" ++ [233]%N ++ runes_of_ascii "` ,
+    //	t
+    @calculatedFrom( ""packet"" )  @calculatedFrom( ""`tick`"" ) @calculatedFrom( ""a	b"" )
+    i32 options1 @lengthOf(Pad )  ,}
+")).
+Eval vm_compute in ("<<<M431>>>" ++ check (runes_of_ascii "packet
+    asx { @calculatedFrom(
+""""  ) @tag( 255 )
+// packet A { u8 x, }
+// trailing space 
+int16 u8x
+,
+@tag(
+    //
+    007 )
+    @tag( 0
+    /// triple
+    ) @tag( 1) u
+    @lengthOf( T ),
+// `tick` ""quote"" 'q'
+//x
+} // " ++ [128512]%N ++ runes_of_ascii " emoji")).
+Eval vm_compute in ("<<<M1904>>>" ++ check (runes_of_ascii "packet Logon {
+    @calculatedFrom(""{,}"")
+    repeat int64 Packet,
+    @tag(42)
+    char[] MetaDataX `doc`,
+}
+
+MetaData Packet {
+    string msg_type,
+    Logon calculatedFrom,
+    f32a matchKey,
+    zchar[0] _x,
+}")).
+Eval vm_compute in ("<<<M111>>>" ++ check (runes_of_ascii "
+MetaData
+_x
+{Z9_ MetaDataX
+// trailing space 
+// @lengthOf(
+, char[]_x`u8 x,`,
+} packet charz {
+//x
+// " ++ [128512]%N ++ runes_of_ascii " emoji
+@tag(
+65535 ) string_ chars , asx
+    //
+    @lengthOf( u128
+    )
+, } 	 ")).
+Eval vm_compute in ("<<<M657>>>" ++ check (runes_of_ascii "MetaData u
     { } MetaData o
 { float uint8x
 `100% of %d` ,repeatCount u8x, string_ leftPad
 , i32
-    Foo , int64 x `two words` , calculatedFrom
-`a\` stringy ,
+    Foo , int64 x `two words` `two words` , calculatedFrom
+stringy `a\` ,
 }
 ")).
-Eval vm_compute in ("<<<M711>>>" ++ check (runes_of_ascii "packet
+Eval vm_compute in ("<<<M719>>>" ++ check (runes_of_ascii "packet
 crc
-{repeat  Foo A  `u8 x,` ,	true uint8x ) string
+{repeat  Foo A  `u8 x,` ,	@lengthOf( uint8x ) string
 matchKey @lengthOf( stringy ) `a\`
 ,
     // c
-    }
+    } }
 MetaData chars{
 leftPad
     //	t
     crc
 `" ++ [233]%N ++ runes_of_ascii "`
 ,}")).
-Eval vm_compute in ("<<<M1891>>>" ++ check (runes_of_ascii "packet A {
-    match k as n {
-        [
-            1, 22, 007, 4, 5,
-            66, 7, 8, 9, 10,
-            11, 12
-        ] : B,
-        2 : C,
-    },
+Eval vm_compute in ("<<<M692>>>" ++ check (runes_of_ascii "MetaData u
+    { } MetaData o
+{ float " ++ [8232]%N ++ runes_of_ascii " uint8x
+`100% of %d` ,repeatCount u8x, string_ leftPad
+, i32
+    Foo , int64 x `two words` , calculatedFrom
+stringy `a\` ,
+}
+")).
+Eval vm_compute in ("<<<M598>>>" ++ check (runes_of_ascii "MetaData u
+    { } MetaData o
+{ float uint8x
+`100% of %d` repeatCount, u8x, string_ leftPad
+, i32
+    Foo , int64 x `two words` , calculatedFrom
+stringy `a\` ,
+}
+")).
+Eval vm_compute in ("<<<M626>>>" ++ check (runes_of_ascii "MetaData u
+    { } MetaData o
+{ float uint8x
+`100% of %d` ,repeatCount u8x, string_ leftPad
+ i32
+    Foo , int64 x `two words` , calculatedFrom
+stringy `a\` ,
+}
+")).
+Eval vm_compute in ("<<<M366>>>" ++ check (runes_of_ascii "packet  T
+    { @calculatedFrom( ""1"" /// triple
+)@tag( 0
+    ) crc {
+int16 falsey
+,/// triple
+int64
+i8i8 , }	,
+    Header , trueish
+, }
+// packet A { u8 x, }
+")).
+Eval vm_compute in ("<<<M669>>>" ++ check (runes_of_ascii "MetaData u
+    { } MetaData o
+{ float uint8x
+`100% of %d` ,repeatCount u8x, string_ leftPad
+, i32
+    Foo , int64 x `two words` , :
+stringy `a\` ,
+}
+")).
+Eval vm_compute in ("<<<M718>>>" ++ check (runes_of_ascii "packet
+crc
+{repeat  Foo A  `u8 x,` ,	@lengthOf( uint8x ) string
+matchKey @lengthOf( stringy ) `a\`
+,
+    // c
+    }
+MetaData chars{
+leftPad")).
+Eval vm_compute in ("<<<M1948>>>" ++ check (runes_of_ascii "packet len {
+    // " ++ [128512]%N ++ runes_of_ascii " emoji
+    Pad,
+    @tag(4294967296)
+    @calculatedFrom(""{,}"")
+    char[0123456789] o @calculatedFrom(""it's""),
 }")).
-Eval vm_compute in ("<<<M480>>>" ++ check (runes_of_ascii "packet
+Eval vm_compute in ("<<<M1964>>>" ++ check (runes_of_ascii "
+packet
+trueish
+    {  @leftPad  ( 
+' '
+	) 
+@lengthOf(
+	A
+    ) 	 // c
+	@lengthOf(
+    A
+)
+    string
+
+    msg_type	, 
+}")).
+Eval vm_compute in ("<<<M655>>>" ++ check (runes_of_ascii "MetaData u
+    { } MetaData o
+{ float uint8x
+`100% of %d` ,repeatCount u8x, string_ leftPad
+, i32
+    Foo , int64")).
+Eval vm_compute in ("<<<M1221>>>" ++ check (runes_of_ascii "options { } options { MetaDataX = char ; } // c
+MetaData Pad { i8 metadata , string stringy , int8 As `{ , }` , }")).
+Eval vm_compute in ("<<<M455>>>" ++ check (runes_of_ascii "packet
     asx { @calculatedFrom(
 """"  ) @tag( 255 )repeat
 // packet A { u8 x, }
 // trailing space 
 int16 u8x
-,
-@tag(
-    //
-    007 )
-    @tag( 0")).
-Eval vm_compute in ("<<<M1518>>>" ++ check (runes_of_ascii "
-options {
+,")).
+Eval vm_compute in ("<<<M1921>>>" ++ check (runes_of_ascii "
+MetaData  calculatedFrom{ x
 
-}
-options
-
-{	// c
-	  MetaDataX	= char
-; }  MetaData
-	Pad
+    float
+    ,
+    //x
+    //	t
+	T lengthOf	,	}
+    root  packet Pad
 {
-    i8
-    metadata
-
-    ,string
-stringy,  int8 As `{ , }`, }")).
-Eval vm_compute in ("<<<M1785>>>" ++ check (runes_of_ascii "root	packet	//
-    u{float32
-	BodyLength
-	,
-    }
-packet
-
-    u{char[ 1
-	]
-
-a1
-@calculatedFrom(""a\""b""
-	) ,
-
-    }/// triple
-")).
-Eval vm_compute in ("<<<M1426>>>" ++ check (runes_of_ascii "packet A {
-    Inner {
-        u8 x `a
-        b`,
-        Deep {
-            u8 y `a
-            b`,
-        },
-    },
 }")).
-Eval vm_compute in ("<<<M1597>>>" ++ check (runes_of_ascii "options
-	{
-
-LittleEndian
-= true ;
+Eval vm_compute in ("<<<M1611>>>" ++ check (runes_of_ascii "options {
+    Foo = 00;
+    Header = false
+    calculatedFrom = true;
 }
-root
-	packet P
 
-    {
-	u16
-	a  ,
-u32 Sum
-    @calculatedFrom(""CRC32""
-	),	}
-")).
-Eval vm_compute in ("<<<M1230>>>" ++ check (runes_of_ascii "options { } options { MetaDataX = char ; } MetaData Pad { i8
-// c
-metadata , string stringy , int8 As `{ , }` , }")).
-Eval vm_compute in ("<<<M283>>>" ++ check (runes_of_ascii "
-packet trueish
-    {} packet Z9_
-{  stringy
-    calculatedFrom	`say ""hi""` ,
-    u64
-Z9_ , } packet f32a { }")).
-Eval vm_compute in ("<<<M929>>>" ++ check (runes_of_ascii "packet A {
-    u16 len @lengthOf(body) `
-`,
-    u32 crc @calculatedFrom(""CRC32"") `
-`,
-    string body,
+root packet int {
+    len,
 }")).
-Eval vm_compute in ("<<<M640>>>" ++ check (runes_of_ascii "MetaData u
+Eval vm_compute in ("<<<M197>>>" ++ check (runes_of_ascii "packet u128	{ }  packet
+_x /// triple
+{ } MetaData T  {
+    u128 f32a
+    // c
+    ,} options{}
+")).
+Eval vm_compute in ("<<<M630>>>" ++ check (runes_of_ascii "MetaData u
     { } MetaData o
 { float uint8x
-`100% of %d` ,repeatCount u8x, string_ leftPad
-, i32")).
-Eval vm_compute in ("<<<M1577>>>" ++ check (runes_of_ascii "packet Foo {
-    float64 a1,
-    string Z9_ @lengthOf(Logon) `line1
-        line2`,
-}
-// " ++ [128512]%N ++ runes_of_ascii " emoji")).
-Eval vm_compute in ("<<<M1534>>>" ++ check (runes_of_ascii "
-// top
-
-options  // c0
-	{// c1
-
-  A // c2
-    =// c3
-  ""// no comment""	// c4
-    }	// c5
-")).
-Eval vm_compute in ("<<<M1852>>>" ++ check (runes_of_ascii "packet A {
+`100% of %d` ,repeatCount u8x, string_ leftPad")).
+Eval vm_compute in ("<<<M1967>>>" ++ check (runes_of_ascii "packet A {
     match k as n {
-        [1, 22, ""c c"", 4, 5] : B,
+        [""a"", ""bb"", 007, ""d""] : B,
         2 : C,
     },
 }")).
-Eval vm_compute in ("<<<M1652>>>" ++ check (runes_of_ascii "packet A {
-    B b `tab
-    	x`,
-    B `tab
-    	x`,
-    repeat B bs `tab
-    	x`,
-}")).
-Eval vm_compute in ("<<<M359>>>" ++ check (runes_of_ascii "options
-    //
-    { MetaDataX // " ++ [128512]%N ++ runes_of_ascii " emoji
-= false crc = char[]
-// a // b
-//x
-}")).
-Eval vm_compute in ("<<<M1701>>>" ++ check (runes_of_ascii "packet A {
-    @leftPad()
-    char[4] x,
-    @rightPad( )
-    zchar[2] y,
-}")).
-Eval vm_compute in ("<<<M343>>>" ++ check (runes_of_ascii "//x
-packet
-rootA {f32
-uint8x `{ , }` ,	string msg_type`{ , }`	,
-    }")).
-Eval vm_compute in ("<<<M1106>>>" ++ check (runes_of_ascii "packet A { match k as n { [ // a
- 1 // b
- , // c
- 2 ] // d
- : B }, }")).
-Eval vm_compute in ("<<<M916>>>" ++ check (runes_of_ascii "packet A {
-    B b `a
-b`,
-    B `a
-b`,
-    repeat B bs `a
-b`,
-}")).
-Eval vm_compute in ("<<<M1794>>>" ++ check (runes_of_ascii "
-
-  root
-    packet
-    A
-	{ 
-u8 
-x
-`tab
-	x`
-    ,
-
-    }")).
-Eval vm_compute in ("<<<M1905>>>" ++ check (runes_of_ascii "MetaData float {
-    packetx f32a `crlf
-    line`,
-}")).
-Eval vm_compute in ("<<<M943>>>" ++ check (runes_of_ascii "MetaData M {
-    u8 x `a
-
-b`,
-    T t `a
-
-b`,
-}")).
-Eval vm_compute in ("<<<M124>>>" ++ check (runes_of_ascii "packet A { repeat f64 A , } // @lengthOf(")).
-Eval vm_compute in ("<<<M590>>>" ++ check (runes_of_ascii "MetaData u
-    { } MetaData o
-{ float")).
-Eval vm_compute in ("<<<M332>>>" ++ check (runes_of_ascii "  MetaData
-u8x  {float32
-uint8x ,}")).
-Eval vm_compute in ("<<<M1651>>>" ++ check (runes_of_ascii "packet A {
-    u8 x `d" ++ [8232]%N ++ runes_of_ascii "`,// c" ++ [8232]%N ++ runes_of_ascii "
-}")).
-Eval vm_compute in ("<<<M580>>>" ++ check (runes_of_ascii "MetaData u
-    { } MetaData o")).
-Eval vm_compute in ("<<<M1099>>>" ++ check (runes_of_ascii "options { a = 1 // a
- ; }")).
-Eval vm_compute in ("<<<M32>>>" ++ check (runes_of_ascii "MetaData
-packetx { }
-")).
-Eval vm_compute in ("<<<M1060>>>" ++ check (runes_of_ascii "packet A {
+Eval vm_compute in ("<<<M1414>>>" ++ check (runes_of_ascii "packet order_item {
+    u8 a,
 }
-// c 	")).
-Eval vm_compute in ("<<<M1058>>>" ++ check (runes_of_ascii "packet A {
-}// c 	")).
-Eval vm_compute in ("<<<M1101>>>" ++ check (runes_of_ascii "options { // a
- }")).
-Eval vm_compute in ("<<<M350>>>" ++ check (runes_of_ascii "options { }
+
+root packet new_order {
+    order_item,
+    u8 x,
+}")).
+Eval vm_compute in ("<<<M1113>>>" ++ check (runes_of_ascii "packet A { u16 // a
+ len // b
+ @lengthOf( // c
+ body // d
+ ) // e
+ `d` // f
+ , }")).
+Eval vm_compute in ("<<<M615>>>" ++ check (runes_of_ascii "MetaData u
+    { } MetaData o
+{ float uint8x
+`100% of %d` ,repeatCount u8x")).
+Eval vm_compute in ("<<<M1830>>>" ++ check (runes_of_ascii "
+options
+	{
+}packet
+
+    Foo
+	{ 
+    // 50% %s
+	// @lengthOf(
+	}
+
 ")).
-Eval vm_compute in ("<<<M1064>>>" ++ check (runes_of_ascii "// c" ++ [8203]%N)).
+Eval vm_compute in ("<<<M862>>>" ++ check (runes_of_ascii "packet A { Inner { match k as n { [1,22,007,4,5,66,7,8] : B, }, }, }")).
+Eval vm_compute in ("<<<M1693>>>" ++ check (runes_of_ascii "MetaData M {
+    u8 x `a
+    
+    b`,
+    T t `a
+    
+    b`,
+}")).
+Eval vm_compute in ("<<<M600>>>" ++ check (runes_of_ascii "MetaData u
+    { } MetaData o
+{ float uint8x
+`100% of %d`")).
+Eval vm_compute in ("<<<M1673>>>" ++ check (runes_of_ascii "// a
+MetaData M {
+}// b
+
+// c
+MetaData N {
+}// d
+// e")).
+Eval vm_compute in ("<<<M20>>>" ++ check (runes_of_ascii "options	{ Logon = """ ++ [28040; 24687]%N ++ runes_of_ascii """
+; BodyLength= false ; }")).
+Eval vm_compute in ("<<<M1760>>>" ++ check (runes_of_ascii "root packet A {
+    u8 x `a
+        b`,
+}")).
+Eval vm_compute in ("<<<M1710>>>" ++ check (runes_of_ascii "
+
+  options
+
+    {	Z9_ 
+=""abc"" ; } ")).
+Eval vm_compute in ("<<<M1418>>>" ++ check (runes_of_ascii "
+root
+
+packet 
+      // c
+	a1
+{	}")).
+Eval vm_compute in ("<<<M1425>>>" ++ check (runes_of_ascii "packet A {
+    u8 x `d" ++ [8239]%N ++ runes_of_ascii "`,// c" ++ [8239]%N ++ runes_of_ascii "
+}")).
+Eval vm_compute in ("<<<M1057>>>" ++ check (runes_of_ascii "packet A {
+ u8 x `d" ++ [12]%N ++ runes_of_ascii "`, // c" ++ [12]%N ++ runes_of_ascii "
+}")).
+Eval vm_compute in ("<<<M765>>>" ++ check (runes_of_ascii "@tag( f64 u8 u16 i64 ""a\\""")).
+Eval vm_compute in ("<<<M1148>>>" ++ check (runes_of_ascii "root packet a1
+// c
+{ }")).
+Eval vm_compute in ("<<<M1863>>>" ++ check (runes_of_ascii "packet
+Packet { }
+
+")).
+Eval vm_compute in ("<<<M1056>>>" ++ check (runes_of_ascii "// c" ++ [12]%N ++ runes_of_ascii "
+packet A {
+}")).
+Eval vm_compute in ("<<<M1068>>>" ++ check (runes_of_ascii "packet A {
+}// c" ++ [65279]%N)).
+Eval vm_compute in ("<<<M240>>>" ++ check (runes_of_ascii "/// triple
+
+")).
+Eval vm_compute in ("<<<M1039>>>" ++ check (runes_of_ascii "// c" ++ [8239]%N)).
